@@ -119,9 +119,12 @@ def run(ctx):
         ebh = ExprBuilder(h)
         rte = h.calls_to("std::io::Read::read_to_end")
         fr = h.calls_to(S + "::fill_multi_line_buffer_from_reader")
-        ok1 = rte and mentions_call(ebh.operand(rte[0].args[0]), BWB)
-        ok2 = fr and mentions_call(ebh.operand(fr[0].args[1]), BWB)
-        if ok1 and ok2:
+        # every way the file's bytes are read — read_to_end, the reader-filling routine, a read loop of a shared helper — reads
+        # through the decoder
+        rd = [c for c in h.calls() if c.path in ("std::io::Read::read_to_end", "std::io::Read::read")]
+        ok1 = all(mentions_call(ebh.operand(c.args[0]), BWB) for c in rd)
+        ok2 = all(mentions_call(ebh.operand(c.args[1]), BWB) for c in fr)
+        if (rd or fr) and ok1 and ok2:
             r.ok("fill_from_file|decoder", "both read paths of fill_multi_line_buffer_from_file go through the decoder", fn=h)
         else:
             r.bad("fill_from_file|decoder", "fill_multi_line_buffer_from_file reads the raw file (bypassing the transcoder)", fn=h,
